@@ -86,13 +86,13 @@ class SymNCO(REINFORCE):
         # Evaluate policy
         out = self.policy(td, self.env, phase=phase, num_starts=n_start)
 
-        # Unbatchify reward to [batch_size, n_start, n_aug].
-        reward = unbatchify(out["reward"], (n_start, n_aug))
+        # Unbatchify reward to [batch_size, n_aug, n_start]: the rows are laid out (start, augmentation, instance)
+        reward = unbatchify(out["reward"], (n_aug, n_start))
 
         # Main training loss
         if phase == "train":
-            # [batch_size, n_start, n_aug]
-            ll = unbatchify(out["log_likelihood"], (n_start, n_aug))
+            # [batch_size, n_aug, n_start]
+            ll = unbatchify(out["log_likelihood"], (n_aug, n_start))
 
             # Calculate losses: problem symmetricity, solution symmetricity, invariance
             loss_ps = problem_symmetricity_loss(reward, ll) if n_start > 1 else 0
@@ -112,14 +112,18 @@ class SymNCO(REINFORCE):
         else:
             if n_start > 1:
                 # max multi-start reward
-                max_reward, max_idxs = reward.max(dim=1)
+                max_reward, max_idxs = reward.max(dim=-1)
                 out.update({"max_reward": max_reward})
 
-                # Reshape batch to [batch, n_start, n_aug]
+                # Reshape batch to [batch, n_aug, n_start]
                 if out.get("actions", None) is not None:
-                    actions = unbatchify(out["actions"], (n_start, n_aug))
+                    actions = unbatchify(out["actions"], (n_aug, n_start))
                     out.update(
-                        {"best_multistart_actions": gather_by_index(actions, max_idxs)}
+                        {
+                            "best_multistart_actions": gather_by_index(
+                                actions, max_idxs, dim=max_idxs.dim()
+                            )
+                        }
                     )
                     out["actions"] = actions
 
